@@ -3,7 +3,7 @@ package main
 func init() { checks["C11"] = checkC11 }
 
 func checkC11(rep *Report, rng *Rng, tier string) {
-	n := 200
+	n := 300
 	if tier == "thorough" {
 		n = 3000
 	}
